@@ -16,6 +16,7 @@ CONSTANTS
   CloseConn = TRUE
   HasFallback = TRUE
   AllowClose = TRUE
+  RtoChanges = 1
   DeadlineTicks = FALSE
   OneAtATime = FALSE
   SafePool = FALSE
@@ -33,4 +34,5 @@ INVARIANT StartErrNoCall
 PROPERTY QuietAfterEnd
 PROPERTY SilentAfterClose
 PROPERTY ClosedStartsRefused
+PROPERTY RtoSnapshot
 CHECK_DEADLOCK FALSE
